@@ -152,6 +152,8 @@ func runC15(c *core.Ctx) {
 		}
 	}
 	c15Writer(c, both, br)
+	sequentialFallsBackOnAnyFailure(c, "C15.R5")
+	cancelBeforeReturnNotForReaders(c, "C15.R6")
 	c15MergeIter(c)
 }
 
